@@ -1,6 +1,8 @@
 import Driver.Util
 import LemoModel.Ledger
 import LemoModel.HashFacts
+import Driver.EvmValue
+import Driver.C11Guard
 namespace Driver.C05
 open LemoModel.Ledger Driver
 
@@ -105,6 +107,7 @@ def step (d : D) (w : List String) : D × String :=
   | ["hashdata", "count", n] => (d, if n == "16" then "ok" else "table-mismatch")
   | "hashdata" :: rest => (d, if hashDataExpected.contains rest then "ok" else "table-mismatch")
   | ["hashfns", n] => (d, if n == toString LemoModel.HashFacts.expected.length then "ok" else "table-mismatch")
+  | "evmv" :: rest => (d, Driver.EvmValue.answer rest)   -- EVM value flow: LemoModel.EvmValue (stateless, one block per line)
   | ["rate", "vote", v, "deposit", dr, "precision", pr] =>
     -- the rates the property states literally = the defaults of `Ledger.Params`; anything else is a changed protocol constant
     let p0 : Params := {}
@@ -151,6 +154,7 @@ def step (d : D) (w : List String) : D × String :=
     match parseTx rest, d.txs with
     | some t, b :: bs => ({ d with txs := { b with subs := b.subs ++ [t] } :: bs }, "ok")
     | _, _ => (d, "bad-op")
+  | ["guard"] => (d, Driver.C11Guard.answer d.p d.accts d.univ d.height d.miner d.gp d.txs.reverse d.dedup d.rf d.votesLast d.flagCheck)
   | ["end"] =>
     let c : Ctx := { p := d.p, miner := d.miner, height := d.height, dedup := d.dedup, rf := d.rf.getD {}, votesLast := d.votesLast, flagCheck := d.flagCheck }
     -- the reward facts must be given exactly at the heights the GENERATED IsRewardBlock names
